@@ -769,6 +769,72 @@ Definition parse_profile (grid : option (list fv)) (t : option text) : option de
       else None
   end.
 
+(* ---- constructors fed from another iterator (value of type TypeIteratorPtr) *)
+(* element conversion of the text iterator to uint32_t: parseConvertElement(.., 'u', &dest) *)
+Definition str_conv_u (s : stri) : Z * option N * stri :=
+  match s_val s with
+  | None => (0, None, s)
+  | Some p =>
+      if (byte_at (s_text s) p =? 0)%N then (MissingData, None, str_set s (s_val s) (s_end s) None) else
+      let p' := skip_space_at (s_text s) p in
+      match cuint32 (s_text s) p' with
+      | (r, v) =>
+          if r <? 0 then (r, None, s) else
+          let rs := zpos p' r in
+          let keep := match s_end s with Some e => Nat.ltb rs e | None => false end in
+          (T_s, v, str_set s (s_val s) (s_end s) (if keep then Some rs else None))
+      end
+  end.
+(* mpt_iterator_consume(it, 'u', &dest): numbers served as double have no conversion to 'u' *)
+Definition it_consume_u (s : src) : Z * option N * src :=
+  match s with
+  | SStr m =>
+      match s_val m with
+      | None => (MissingData, None, s)
+      | Some _ =>
+          let '(c, v, m1) := str_conv_u m in
+          if c <? 0 then (BadType, None, SStr m1) else
+          let (r, m2) := str_advance m1 in
+          if r <? 0 then (r, None, SStr m2) else (T_conv, v, SStr m2)
+      end
+  | _ => match it_value s with
+         | (VNone, s1) => (MissingData, None, s1)
+         | (_, s1) => (BadType, None, s1)
+         end
+  end.
+Definition vdflt (v : option fv) (d : fv) : fv := match v with Some x => x | None => d end.
+(* mpt_range_set(&r, value with iterator): result, min, max *)
+Definition range_set (s : src) (mn mx : fv) : Z * fv * fv * src :=
+  let '(r1, v1, s1) := it_consume s in
+  if r1 <? 0 then (r1, mn, mx, s1) else
+  if r1 =? 0 then (MissingData, mn, mx, s1) else
+  let '(r2, v2, s2) := it_consume s1 in
+  if r2 <? 0 then (r2, mn, mx, s2) else (2, vdflt v1 (Fin 0), vdflt v2 (Fin 1), s2).
+(* _mpt_iterator_linear / _range / _factor with an iterator value: description and the source afterwards *)
+Definition lin_of_iter (s : src) : option desc * src :=
+  let '(r, iv, s1) := it_consume_u s in
+  if r <? 0 then (None, s1) else
+  let '(r2, mn, mx, s2) := range_set s1 (Fin 0) (Fin 1) in
+  if r2 <? 0 then (None, s2)
+  else (Some (PLin (wrap32 (Z.of_N (match iv with Some n => n | None => 10%N end) + 1)) mn mx), s2).
+Definition range_of_iter (s : src) : option desc * src :=
+  let '(r, mn, mx, s1) := range_set s (Fin 0) (Fin 1) in
+  if r <? 0 then (None, s1) else
+  let '(r2, v, s2) := it_consume s1 in
+  if r2 <? 0 then (None, s2) else (Some (PRange mn mx (vdflt v (default_step mn mx))), s2).
+Definition fac_of_iter (s : src) : option desc * src :=
+  let '(r, iv, s1) := it_consume_u s in
+  if r <? 0 then (None, s1) else
+  let elem := wrap32 (Z.of_N (match iv with Some n => n | None => 0%N end) + 1) in
+  let '(r1, vb, s2) := it_consume s1 in
+  if r1 <? 0 then (Some (PFac (of_N 10) (of_N 10) (Fin 0) elem), s2) else
+  let base := vdflt vb (of_N 10) in
+  let '(r2, vf, s3) := it_consume s2 in
+  if r2 <? 0 then (Some (PFac base (of_N 10) (Fin 0) elem), s3) else
+  let fact := vdflt vf (of_N 10) in
+  let '(r3, vi, s4) := it_consume s3 in
+  (Some (PFac base fact (if r3 <? 0 then Fin 0 else vdflt vi (Fin 0)) elem), s4).
+
 (* the constructors: description -> state machine (may still refuse) *)
 Definition build (d : desc) : option src :=
   match d with
